@@ -27,7 +27,9 @@ Bases == [
            [k |-> "namespace", prefix |-> "p", uri |-> "u"], Style(<<"a">>, B2)>>,
   s4 |-> <<[k |-> "media", queries |-> <<"print">>, rules |-> <<Style(<<"a">>, B1), Style(<<"b">>, B2)>>], Style(<<"i">>, B2)>>,
   s5 |-> <<[k |-> "page", sel |-> ":first", body |-> B2, margins |-> <<[name |-> "@top-left", body |-> B2]>>], Style(<<"a">>, B1)>>,
-  s6 |-> <<[k |-> "fontface", body |-> <<D("font-family", <<C("IDENT", "x")>>, "")>>], Style(<<"a">>, B2)>>]
+  s6 |-> <<[k |-> "fontface", body |-> <<D("font-family", <<C("IDENT", "x")>>, "")>>], Style(<<"a">>, B2)>>,
+  s7 |-> <<[k |-> "namespace", prefix |-> "p", uri |-> "u"], Style(<<"a">>, B2), Style(<<"p|a">>, B1),
+           [k |-> "media", queries |-> <<"print">>, rules |-> <<Style(<<"p|b", "b">>, B2)>>]>>]
 BaseIds == DOMAIN Bases
 
 \* ---- garbage ---------------------------------------------------------------------------------------------------
@@ -56,7 +58,10 @@ SelGarbage == {g \in Garbage : Balanced(g) /\ "{" \notin Range(g) /\ "@kw" \noti
                   /\ (\E i \in 1..Len(g) : g[i] \in {"!", "$", "(", "[", "string", "number", ",", ":"})
                   /\ ~(\A i \in 1..Len(g) : g[i] \in {"ident", "*", "#hash", ":", ","}) }
 AtGarbage == {g \in Garbage : Balanced(g) /\ Len(g) <= 2 /\ "{" \notin Range(g)}
-Misplaced == {"charset-late", "import-late", "namespace-late", "import-in-media", "margin-outside-page", "charset-in-media", "fontface-in-media"}
+Misplaced == {"charset-late", "import-late", "namespace-late", "namespace-redeclare-late", "namespace-default-late", "import-in-media",
+              "margin-outside-page", "charset-in-media", "fontface-in-media"}
+\* statement boundaries at which a head rule (@charset, @import, @namespace) is misplaced: after a rule of the body
+MisPositions(b) == {j \in 1..Len(Bases[b]) : \E i \in 1..j : Bases[b][i].k \in {"style", "media", "page", "fontface"}}
 
 NDecls(r) == IF r.k \in {"style", "page", "fontface"} THEN Len(r.body) ELSE 0
 DeclRows == UNION {{[kind |-> "damage", what |-> "declaration", base |-> b, rule |-> i, at |-> j, g |-> g] :
@@ -64,7 +69,7 @@ DeclRows == UNION {{[kind |-> "damage", what |-> "declaration", base |-> b, rule
 SelRows  == UNION {{[kind |-> "damage", what |-> "selector", base |-> b, rule |-> 0, at |-> j, g |-> g] : j \in 0..Len(Bases[b]), g \in SelGarbage} : b \in {"s2", "s4"}}
 AtRows   == UNION {{[kind |-> "damage", what |-> w, base |-> b, rule |-> 0, at |-> j, g |-> g] :
                       w \in {"unknown-at-statement", "unknown-at-block"}, j \in 0..Len(Bases[b]), g \in AtGarbage} : b \in {"s2", "s3"}}
-MisRows  == {[kind |-> "damage", what |-> w, base |-> b, rule |-> 0, at |-> Len(Bases[b]), g |-> <<>>] : w \in Misplaced, b \in BaseIds}
+MisRows  == UNION {{[kind |-> "damage", what |-> w, base |-> b, rule |-> 0, at |-> j, g |-> <<>>] : w \in Misplaced, j \in MisPositions(b)} : b \in BaseIds}
 InMedia  == {[kind |-> "damage", what |-> "declaration", base |-> "s4", rule |-> 1, at |-> j, g |-> g] : j \in 0..2, g \in {x \in DeclGarbage : Len(x) <= 2}}
 TruncRows == {[kind |-> "trunc", base |-> b, step |-> CutStep, what |-> "prefix", rule |-> 0, at |-> 0, g |-> <<>>] : b \in BaseIds}
 Rows == DeclRows \cup SelRows \cup AtRows \cup MisRows \cup InMedia \cup TruncRows
